@@ -248,6 +248,24 @@ def hookListCs (h : Heap) (k : HKey) (ob : Observer) (x : W) : List Graph → Li
   | c :: cs => (okOr [] (objects h ob x)).flatMap (fun y => hookList h k true c y) ++ hookListCs h k ob x cs
 end
 
+def isOk {α} : Except Exc α → Bool
+  | .ok _ => true
+  | .error _ => false
+
+/-! The walk of `g` from `x` meets no failing `iter_observables` / `iter_objects`
+(a property of the heap alone: this is exactly when a registration succeeds). -/
+mutual
+def walkOk (h : Heap) (extra : Bool) : Graph → W → Bool
+  | .node ob cs, x =>
+    isOk (observables h ob x) && walkOkCs h ob x cs && (!extra || isOk (extraObservables h ob x))
+def walkOkCs (h : Heap) (ob : Observer) (x : W) : List Graph → Bool
+  | [] => true
+  | c :: cs =>
+    (match objects h ob x with
+     | .error _ => false
+     | .ok ys => ys.all (fun y => walkOk h true c y)) && walkOkCs h ob x cs
+end
+
 /-- Number of paths along `g` from `x` that end in a *notifying* node at
 observable `o`: what the user notifier's reference count should be. -/
 def reach (h : Heap) (g : Graph) (x : W) (o : Observable) : Nat :=
